@@ -18,6 +18,7 @@ import drv_orbit
 import drv_kepler
 import drv_earth
 import drv_sphere
+import drv_precession
 
 YMIN, YMAX = -4712, 6000
 
@@ -615,4 +616,25 @@ def plan_C05(tier, seed):
                      "antisymmetry of the position angle is not asserted (it is not exact on the sphere)"])
 
 
-PLANS = {"C05": plan_C05, "C18": plan_C18, "C11": plan_C11, "C07": plan_C07, "C14": plan_C14, "C15": plan_C15, "C13": plan_C13, "C12": plan_C12, "C17": plan_C17, "C02": plan_C02, "C03": plan_C03, "C04": plan_C04, "C10": plan_C10, "C01": plan_C01, "C16": plan_C16, "C19": plan_C19}
+def _nt_c06(ev):
+    return (ev["k"], json.dumps(ev["in"]), json.dumps(ev.get("el")))
+
+
+def plan_C06(tier, seed):
+    T = ("Trace_Precession", "Trace.cfg")
+    nsh, per = (12, 150) if tier == "quick" else (48, 3000)
+    sh = [Shard("prec_%02d" % i, drv_precession.gen_prec, dict(seed=seed, shard=i, n=per), *T) for i in range(nsh)]
+    return dict(
+        mc=[MC("MC_Octa", "MC_Octa.cfg", workers=8, heap="2g", note="rotation/dot-product algebra of Sphere.tla on lattice directions")],
+        shards=sh, level="model_checking", exhaustive=False, nontrivial=_nt_c06,
+        rule="Directions uniform on the sphere plus both polar caps (within 5 deg) and the +-85 deg branch boundary; epoch pairs "
+             "within +-5 centuries of J2000 (half of them) and +-20 centuries. Per scenario: precession_equatorial there, back, "
+             "zero interval and a second star; precession_ecliptical likewise (1e-6 within 5 centuries); the ecliptical route "
+             "through the library's mean obliquity at both epochs vs the equatorial route (1e-4); proper motion up to 10 arcsec/yr "
+             "after dt and 2 dt (displacement linear and of the right size); Newcomb vs FK5 for epochs in 1800-2100 (0.005 deg); "
+             "orbital elements (incl. retrograde orbits) reduced to another equinox and back. TLC judges scaled chords between "
+             "unit-vector witnesses; the angle between two stars is compared through a verified chord witness.",
+        assumptions=["element reduction there-and-back is asserted within 5 centuries of J2000 to 1e-5 deg (the statement gives no number)"])
+
+
+PLANS = {"C06": plan_C06, "C05": plan_C05, "C18": plan_C18, "C11": plan_C11, "C07": plan_C07, "C14": plan_C14, "C15": plan_C15, "C13": plan_C13, "C12": plan_C12, "C17": plan_C17, "C02": plan_C02, "C03": plan_C03, "C04": plan_C04, "C10": plan_C10, "C01": plan_C01, "C16": plan_C16, "C19": plan_C19}
